@@ -354,7 +354,11 @@ class ParallelObserverExpression(ObserverExpression):
     def _create_graphs(self, branches):
         left_graphs = self._left._create_graphs(branches=branches)
         right_graphs = self._right._create_graphs(branches=branches)
-        return left_graphs + right_graphs
+        # A branch occurring on both sides (e.g. "a.[b,b]") is observed once:
+        # the children of an ObserverGraph must be unique.
+        return left_graphs + [
+            graph for graph in right_graphs if graph not in left_graphs
+        ]
 
 
 def join(*expressions):
